@@ -448,8 +448,11 @@ def doStep (R : Nat → Bytes → Option Nat) (s : St) : Op → St × Ret
   | .wmode m => ({ s with wmode := m }, .unit)
   | .writable => (dispatch R s false true, .unit)
   | .connect =>
-    let f := s.nextId
-    (addIo { s with connecting := true, cfut := some f, nextId := f + 1 } false true, .fut f)
+    -- `IOStream.connect` starts with `_check_closed()` (fix: connect on a closed stream raises StreamClosedError)
+    if s.closed then (s, .raised (.streamClosed s.error))
+    else
+      let f := s.nextId
+      (addIo { s with connecting := true, cfut := some f, nextId := f + 1 } false true, .fut f)
   | .cerr k => ({ s with cerr := some k }, .unit)
 
 structure Out where
